@@ -3,6 +3,7 @@
 // except the schedule explorers, which drive real threads and live here.
 mod evalsrv;
 mod parsesrv;
+mod rcmc;
 mod util;
 
 fn main() {
@@ -12,6 +13,7 @@ fn main() {
     match driver {
         "eval" => evalsrv::main(rest),
         "parse" => parsesrv::main(rest),
+        "rcmc" => rcmc::main(rest),
         "parsedump" => parsesrv::debug_dump(&rest[0]),
         _ => {
             eprintln!("usage: svh <eval> ...");
